@@ -55,6 +55,21 @@ def make_jobs(tier, seed, work):
                          "max_servers": [4, 2][(seed + idx) % 2], "parallelism": [4, 8, 16][(seed + idx) % 3], "level": lv}
                     j.update(LEVELS[lv])
                     jobs.append(j)
+    # Mixed-instance shards: the shards above hold one (HTTP version, protocol) each, so one peer process only ever
+    # serves one kind of server instance. As in a real run, these two let ONE client / server process work on
+    # HTTP/1.1, HTTP/2 and HTTP/3 instances, with and without TLS, at the same time (4 servers at once), so that
+    # whatever a peer keeps between test cases (transports, TLS configurations, pools) is shared across kinds.
+    # They repeat permutations of the shards above and are not part of the partition check.
+    for mode, peer in (("server", "referenceserver"), ("client", "referenceclient")):
+        idx += 1
+        name = "mix-%s" % mode
+        cfgp = os.path.join(cfgdir, name + ".yaml")
+        N.write_yaml_config(cfgp, VERSIONS, ["PROTOCOL_CONNECT", "PROTOCOL_GRPC"], [CODECS[(seed + idx) % 2]], ["COMPRESSION_IDENTITY"], REF_EXTRA)
+        j = {"kind": "run", "name": name + "-l1", "run": "reference " + mode + "-mode, mixed instances", "mode": mode, "peer": peer,
+             "config_file": cfgp, "known_failing": [], "trace": True, "seed": seed * 1000 + idx * 10 + 1,
+             "run_patterns": ["Basic/**", "TLS Client Certs/**"], "max_servers": 12, "parallelism": 16, "level": 1}
+        j.update(LEVELS[1])
+        jobs.append(j)
     for name, conf, mode, peer, kf in (
             ("grpc-server", "grpc-impls-config.yaml", "server", "grpcserver", "grpcserver-known-failing.txt"),
             ("grpc-client", "grpc-impls-config.yaml", "client", "grpcclient", "grpcclient-known-failing.txt"),
